@@ -70,6 +70,7 @@ pub fn exec_opts(scenario: Scenario, log: bool) -> ExecOpts {
     ExecOpts {
         time_bound_ns: if scenario == Scenario::Crashfree { TIME_BOUND_NS } else { 0 },
         log,
+        mirror_base: None,
     }
 }
 
@@ -144,6 +145,8 @@ pub fn run_batch(env: &Arc<Env>, known: &Arc<KnownFindings>, cfg: &BatchCfg) -> 
                     samples: Vec::new(),
                     completed: 0,
                 };
+                crate::watch::set_worker(w);
+                crate::watch::install_thread_altstack();
                 let mut i = first + w as u64;
                 while i < first + runs {
                     if i > min_fail.load(Ordering::SeqCst) {
@@ -154,8 +157,11 @@ pub fn run_batch(env: &Arc<Env>, known: &Arc<KnownFindings>, cfg: &BatchCfg) -> 
                         break;
                     }
                     let seed = run_seed(verif_seed, scenario, i);
+                    crate::watch::begin_run(i);
                     let plan = Gen::new(&env, seed, tier).plan(scenario);
+                    let (ops0, ev0) = (out.stats.ops, out.stats.evaluations);
                     let (o, _) = execute(&env, &plan, &mut out.stats, exec_opts(scenario, false));
+                    crate::watch::end_run(out.stats.ops - ops0, out.stats.evaluations - ev0, out.stats.states.len() as u64);
                     out.digests.push((i, o.digest));
                     out.completed += 1;
                     if out.samples.len() < 2 && plan.ops.len() <= 40 && matches!(o.end, End::Ok) {
@@ -283,19 +289,45 @@ pub fn minimise(env: &Env, plan: &Plan, v0: &Violation, max_execs: u64, max_time
     }
     let budget_ok = |execs: u64| execs < max_execs && t0.elapsed() < max_time;
 
-    // ddmin over the op list
-    let mut chunk = (best.ops.len() / 2).max(1);
+    // ddmin over the op list. The unit of removal is one op, except in the scenario whose
+    // oracle relates two hosts' key sequences (C14): there a whole syllable group (both
+    // hosts' keys up to the comparison mark) is the unit, so that every candidate is
+    // still "the same syllables typed in both orders".
+    let atomic_groups = plan.scenario == Scenario::KarOrderEquiv;
+    let units = |p: &Plan| -> Vec<(usize, usize)> {
+        if !atomic_groups {
+            return (0..p.ops.len()).map(|i| (i, i + 1)).collect();
+        }
+        let mut v = Vec::new();
+        let mut start = 0;
+        for (i, op) in p.ops.iter().enumerate() {
+            let boundary = matches!(op, Op::Mark { tag: 1 } | Op::Spawn { .. } | Op::Finish { .. } | Op::Commit { .. } | Op::Bs { ctrl: true, .. });
+            if boundary {
+                v.push((start, i + 1));
+                start = i + 1;
+            }
+        }
+        if start < p.ops.len() {
+            v.push((start, p.ops.len()));
+        }
+        v
+    };
+    let mut chunk = (units(&best).len() / 2).max(1);
     loop {
         let mut removed_any = false;
         let mut i = 0;
-        while i < best.ops.len() && budget_ok(execs) {
-            let end = (i + chunk).min(best.ops.len());
-            if end - i >= best.ops.len() {
+        loop {
+            let u = units(&best);
+            if i >= u.len() || !budget_ok(execs) {
+                break;
+            }
+            let end = (i + chunk).min(u.len());
+            if end - i >= u.len() {
                 i += chunk;
                 continue;
             }
             let mut p = best.clone();
-            p.ops.drain(i..end);
+            p.ops.drain(u[i].0..u[end - 1].1);
             if let Some(v) = fails_same(env, &p, &clause, &mut execs) {
                 best = p;
                 best_v = v;
@@ -320,6 +352,32 @@ pub fn minimise(env: &Env, plan: &Plan, v0: &Violation, max_execs: u64, max_time
     let mut progress = true;
     while progress && budget_ok(execs) {
         progress = false;
+        if atomic_groups {
+            // C14's premise: both hosts have identical settings except the option under
+            // test, so a setting is only ever cleared on both hosts at once
+            for b in 0..11u16 {
+                if (1 << b) == crate::cfg::KAR_ORDER || !budget_ok(execs) {
+                    continue;
+                }
+                let mut p = best.clone();
+                let mut changed = false;
+                for op in p.ops.iter_mut() {
+                    if let Op::Spawn { cfg, .. } = op {
+                        if cfg.opts & (1 << b) != 0 {
+                            cfg.opts &= !(1 << b);
+                            changed = true;
+                        }
+                    }
+                }
+                if changed {
+                    if let Some(v) = fails_same(env, &p, &clause, &mut execs) {
+                        best = p;
+                        best_v = v;
+                    }
+                }
+            }
+            break;
+        }
         for i in 0..best.ops.len() {
             if !budget_ok(execs) {
                 break;
@@ -381,7 +439,7 @@ pub fn minimise(env: &Env, plan: &Plan, v0: &Violation, max_execs: u64, max_time
         }
         // one more single-op removal pass after simplification
         let mut i = 0;
-        while i < best.ops.len() && budget_ok(execs) {
+        while i < best.ops.len() && budget_ok(execs) && !atomic_groups {
             if best.ops.len() == 1 {
                 break;
             }
